@@ -9,6 +9,7 @@ import (
 	"os/exec"
 	"path/filepath"
 	"regexp"
+	"runtime/pprof"
 	"sort"
 	"strings"
 	"time"
@@ -41,6 +42,7 @@ type HarnessSpec struct {
 	MapOrders    bool                `json:"map_orders"`
 	Limits       map[string]int      `json:"limits"`
 	QueryMs      int                 `json:"query_timeout_ms"`
+	Solver       string              `json:"solver"`
 	AllowBlocked bool                `json:"allow_blocked"`
 	NativeReplay string              `json:"native_replay"` // "" = yes, otherwise the reason it does not apply
 	Assumptions  []string            `json:"assumptions"`
@@ -211,6 +213,8 @@ func cmdCheck(args []string) {
 	noEvidence := fs.Bool("no-evidence", false, "do not write the evidence file")
 	verbose := fs.Bool("v", false, "verbose")
 	concrete := fs.String("concrete", "", "comma-separated concrete nondet vector (engine-concrete mode)")
+	cpuprof := fs.String("cpuprofile", "", "write a CPU profile")
+	maxPathsFlag := fs.Int("max-paths", 0, "override max paths (diagnostics; result is then partial)")
 	if len(args) < 2 {
 		fatal(2, "usage: gosym check <ID> <tier>")
 	}
@@ -221,6 +225,11 @@ func cmdCheck(args []string) {
 	}
 	if v := os.Getenv("VERIF_REPO"); v != "" {
 		repoDir = v
+	}
+	if *cpuprof != "" {
+		f, _ := os.Create(*cpuprof)
+		pprof.StartCPUProfile(f)
+		defer pprof.StopCPUProfile()
 	}
 	t0 := time.Now()
 	var props Props
@@ -295,6 +304,9 @@ func cmdCheck(args []string) {
 			if maxPaths == 0 {
 				maxPaths = 200000
 			}
+			if *maxPathsFlag > 0 {
+				maxPaths = *maxPathsFlag
+			}
 			budget := time.Duration(ts.BudgetS) * time.Second
 			if ts.BudgetS == 0 {
 				budget = 10 * time.Minute
@@ -314,7 +326,7 @@ func cmdCheck(args []string) {
 			if tier == "thorough" {
 				cross = 20
 			}
-			res := interp.Explore(prog, cfg, fn, w, maxPaths, budget, qms, cross)
+			res := interp.Explore(prog, cfg, fn, w, maxPaths, budget, qms, cross, h.Solver)
 			ho := harnessOutcome{Spec: h, Res: res}
 			for _, c := range h.Covers {
 				if res.Covers[c] == 0 {
@@ -340,6 +352,7 @@ func cmdCheck(args []string) {
 		}
 		pureSMT = append(pureSMT, runSMTHarness(h, ts, tier))
 	}
+	pprof.StopCPUProfile()
 	code := conclude(id, tier, seed, &props, outcomes, pureSMT, loadS, time.Since(t0).Seconds(), !*noEvidence, *only != "")
 	os.Exit(code)
 }
